@@ -49,6 +49,16 @@ for d, c, err in ex.map(run_seed, dirs):
                           "suite_with_patch": "passes" if "suite passes with patch" in vlog else "?"},
         "check_result": {"cmd": "./check %s quick (with the change applied to a scratch copy of /repo's tree, VERIF_REPO; confirmed equivalent to applying it to /repo)" % pid, "exit": c.returncode, "violation_signatures": sigs[:6]},
     }
-    json.dump(meta, open(os.path.join(d, "meta.json"), "w"), indent=1)
+    mp = os.path.join(d, "meta.json")
+    if os.path.exists(mp):
+        try:
+            old = json.load(open(mp))
+            if "also_checked_with" in old:
+                meta["also_checked_with"] = old["also_checked_with"]
+            if "note" in old.get("check_result", {}):
+                meta["check_result"]["note"] = old["check_result"]["note"]
+        except Exception:
+            pass
+    json.dump(meta, open(mp, "w"), indent=1)
     print(name, "exit", c.returncode, sigs[:2], flush=True)
 print("dirty:", sh("git status --porcelain", "/repo").stdout.strip())
